@@ -202,6 +202,8 @@ impl World {
         if self.invalid.is_some() {
             return Value::Null;
         }
+        let bytes: usize = self.slots.values().map(|v| v.len()).sum();
+        crate::runner::set_allowance((bytes >> 21) as u64);
         crate::runner::journal(&self.history, &op);
         self.history.push(op.clone());
         let name = op.get("op").and_then(|v| v.as_str()).unwrap_or("?").to_string();
@@ -212,6 +214,7 @@ impl World {
         self.bump(&format!("op.{name}"));
         let r = match name.as_str() {
             "set" => self.op_set(&op),
+            "set.fill" => self.op_set_fill(&op),
             "fault" => self.op_fault(&op),
             "copy" => self.op_copy(&op),
             "world.reset" => {
@@ -257,6 +260,22 @@ impl World {
                 Value::Null
             }
         }
+    }
+
+    /// A very large input without putting it into the schedule: `len` bytes from a xorshift stream.
+    fn op_set_fill(&mut self, op: &Value) -> R<Value> {
+        let len = gu(op, "len")? as usize;
+        let mut x = gu(op, "seed")? | 1;
+        let mut b = Vec::with_capacity(len + 8);
+        while b.len() < len {
+            x ^= x << 13;
+            x ^= x >> 7;
+            x ^= x << 17;
+            b.extend_from_slice(&x.to_le_bytes());
+        }
+        b.truncate(len);
+        self.put(gs(op, "slot")?, b);
+        Ok(json!({"len": len}))
     }
 
     fn op_set(&mut self, op: &Value) -> R<Value> {
